@@ -118,22 +118,30 @@ deriving Repr, DecidableEq, Inhabited
 
 def dtRange (d : DT) (v : Int) : Bool := d.contains v
 
+/-- `output[rowids, col] = v`: one fancy-index assignment (`IndexError` on a row outside the array) -/
+def scatRows (n ncols c : Nat) (v : Int) (rows : Rows) (out : Array Int) : M (Array Int) :=
+  rows.foldlM (fun (o : Array Int) r =>
+    if r ≥ n then throw (.indexError "row") else pure (o.set! (r * ncols + c) v)) out
+
+/-- one entry of the scatter loop -/
+def scatStep (ndim : Nat) (fits : Int → Bool) (n ncols : Nat) (out : Array Int) (e : Key × Rows × Int) :
+    M (Array Int) :=
+  if e.2.1.isEmpty then pure out else
+  if !fits e.2.2 then throw (.overflow "entry value") else
+  let col := if ndim > 1 then e.1.getD 1 0 else 0
+  if ndim > 1 ∧ (col < 0 ∨ col ≥ (ncols : Int)) then throw (.indexError "column") else
+  scatRows n ncols col.toNat e.2.2 e.2.1 out
+
+def dtFits (dt : Option DT) (v : Int) : Bool := match dt with | some d => dtRange d v | none => true
+
 /-- `numpy.full(shape, fill, dtype)` then scatter; `OverflowError` when a Python int does not fit -/
 def scatter (i : IIndex) (fill : Int) (dt : Option DT) (vals : List (Key × Rows × Int)) : M Arr := do
   if i.ndim > 2 then throw (.scope "to_array on a 3-D index")
-  let fits (v : Int) : Bool := match dt with | some d => dtRange d v | none => true
-  if !fits fill then throw (.overflow "fill value")
+  if !dtFits dt fill then throw (.overflow "fill value")
   let ncols := if i.ndim > 1 then i.shape.getD 1 0 else 1
   let n := i.nrows
   let base : Array Int := Array.replicate (n * ncols) fill
-  let out ← vals.foldlM (fun (out : Array Int) (e : Key × Rows × Int) => do
-      let (k, rows, v) := e
-      if rows.isEmpty then pure out else
-      if !fits v then throw (.overflow "entry value") else
-      let col := if i.ndim > 1 then k.getD 1 0 else 0
-      if i.ndim > 1 ∧ (col < 0 ∨ col ≥ (ncols : Int)) then throw (.indexError "column") else
-      rows.foldlM (fun (o : Array Int) r =>
-        if r ≥ n then throw (.indexError "row") else pure (o.set! (r * ncols + col.toNat) v)) out) base
+  let out ← vals.foldlM (scatStep i.ndim (dtFits dt) n ncols) base
   pure { shape := i.shape, data := out.toList }
 
 def lookup (m : List (Int × Int)) (k : Int) : Option Int := (m.find? (fun p => p.1 == k)).map (·.2)
